@@ -529,8 +529,13 @@ func (in *Interp) global(g *ssa.Global) *Loc {
 	elem := g.Type().(*types.Pointer).Elem()
 	var l *Loc
 	if _, isIface := elem.Underlying().(*types.Interface); isIface && !in.isRepo(g.Pkg.Pkg.Path()) {
-		// foreign interface-typed global (e.g. io.EOF): opaque non-nil unique value
-		l = newLoc(IfaceV{t: types.Typ[types.String], v: OpaqueV{tag: g.String()}})
+		// foreign interface-typed global (e.g. io.EOF): a unique non-nil value; errors get
+		// a real *errors.errorString so that Error() and errors.Is work
+		if types.Identical(elem, errT()) {
+			l = newLoc(in.newErrorString(g.Name()))
+		} else {
+			l = newLoc(IfaceV{t: types.Typ[types.String], v: OpaqueV{tag: g.String()}})
+		}
 	} else {
 		l = newLoc(zero(elem))
 	}
